@@ -129,5 +129,5 @@ func TestVerifC43(t *testing.T) {
 		"BFS over all event histories (join/rejoin/sync/heartbeat/commit/leave/failover/stale-member events and advance(d), d in {rebalance-eps, rebalance, rebalance+eps=session-eps, session, session+eps}, eps = half a cleanup interval) up to the depth bound, states merged by canonical key, every transition executed on the real GroupCoordinator whose own cleanupLoop runs on virtual time; the group is observed after every tick: no member disappears unless its session lapsed or the rebalance timeout passed without it rejoining, removals start a rebalance, and (without failover) lapsed members and rebalance laggers are gone at the first tick after the lapse. distinct = distinct (store, event, reply, state change) observations; non-trivial = error code or observable change",
 		[]string{"session 3 s, rebalance 2 s, cleanup interval 1 s of virtual time for every member",
 			"a heartbeat answered REBALANCE_IN_PROGRESS does not count as heartbeating (the coordinator does not refresh the session on it; Kafka does)",
-			"the never-late half is judged only in histories without failover; a replacement coordinator does not expire members of groups no request has touched yet, and the in-memory store drops session timeouts (C17)"})
+			"the never-late half is judged only in histories without failover: a replacement coordinator loads a group on the first request that names it and does not expire members of groups no request has touched yet, and it restarts the rebalance timeout on load"})
 }
